@@ -16,6 +16,7 @@ type treeReq struct {
 	Seed   uint64 `json:"seed"`
 	Small  bool   `json:"small"`  // few post-trunk blocks (exhaustive orders)
 	Params [5]int `json:"params"` // trunkMin trunkMax nbMin nbMax maxDepth
+	Heavy  bool   `json:"heavy"`  // add a heavier-but-shorter branch
 }
 
 type ordersReq struct {
@@ -28,6 +29,7 @@ type ordersReq struct {
 	WithDB  bool    `json:"with_db"`
 	Mix     bool    `json:"mix"`
 	Conc    int     `json:"conc"`
+	Tail    int     `json:"tail"`
 }
 
 type orderRes struct {
@@ -39,6 +41,7 @@ type orderRes struct {
 	SeqObs      int            `json:"seq_obs"`
 	Tip         string         `json:"tip"`
 	NonDeciding map[string]int `json:"nondeciding,omitempty"`
+	Held        int            `json:"held,omitempty"`
 }
 
 func tmpDir() string {
@@ -62,6 +65,9 @@ func RegisterChildren() {
 		var spec TreeSpec
 		for try := 0; ; try++ {
 			spec = GenTree(r, q.Params[0], q.Params[1], q.Params[2], q.Params[3], q.Params[4])
+			if q.Heavy {
+				AddHeavyShort(&spec, r)
+			}
 			post := len(spec.Blocks) - spec.Trunk
 			if !q.Small || post <= 6 || try > 50 {
 				break
@@ -99,8 +105,8 @@ func RegisterChildren() {
 		}
 		var out []orderRes
 		for k, ord := range q.Orders {
-			res := RunOrder(filepath.Join(tmpDir(), fmt.Sprintf("n%d", k)), q.Tree, ord, RunOpts{Broadcast: true, MixFlavour: q.Mix, CheckSeqEachStep: q.SeqStep, WithDB: q.WithDB, Conc: q.Conc})
-			or := orderRes{Order: ord, Orphans: res.Orphans, Reorgs: res.Reorgs, SeqProblems: res.SeqProblems, SeqObs: res.SeqObs, Tip: res.Snap.TipHash}
+			res := RunOrder(filepath.Join(tmpDir(), fmt.Sprintf("n%d", k)), q.Tree, ord, RunOpts{Broadcast: true, MixFlavour: q.Mix, CheckSeqEachStep: q.SeqStep, WithDB: q.WithDB, Conc: q.Conc, ConcTail: q.Tail})
+			or := orderRes{Order: ord, Orphans: res.Orphans, Reorgs: res.Reorgs, SeqProblems: res.SeqProblems, SeqObs: res.SeqObs, Tip: res.Snap.TipHash, Held: res.Held}
 			for _, e := range res.Errs {
 				or.Problems = append(or.Problems, "valid block rejected: "+e)
 			}
@@ -247,6 +253,14 @@ func Engine(c *lib.Ctx, focus string, nTreesSmall, nTreesBig, budgetSmall, budge
 			// outside-precondition trees: short trunk so that the heaviest tip may stay below the margin
 			req.Params[0], req.Params[1] = 7, 10
 		}
+		if ti%3 == 1 {
+			// every third tree: the heaviest branch is shorter than the longest one (reorganisation to a lower height)
+			req.Heavy = true
+			if small {
+				req.Params = [5]int{13, 14, 1, 2, 3}
+			}
+			c.Count("trees_with_heavier_shorter_branch", 1)
+		}
 		tr := c.Child("tree", req, lib.ChildOpts{Timeout: 5 * time.Minute})
 		if tr.Died || tr.TimedOut {
 			c.Inconclusive("tree %d: builder child failed: %s", ti, lib.ShortList([]string{tr.Stderr}, 1))
@@ -283,18 +297,39 @@ func Engine(c *lib.Ctx, focus string, nTreesSmall, nTreesBig, budgetSmall, budge
 			c.Count("trees_outside_precondition", 1)
 		}
 		workers := 16
-		chunks := make([][][]int, workers)
+		chunks := make([][][]int, workers+1)
 		for i, o := range orders {
 			chunks[i%workers] = append(chunks[i%workers], o)
 		}
-		results := make([][]orderRes, workers)
+		// orphan-drain schedules (chunk `workers`): everything except the first block and one block b of the winning
+		// branch is delivered first (all of it waits in the orphan pool), then the first block and b start together:
+		// b arrives while the first block's delivery is draining the pool towards b's parent
+		wpath := tree.Spec.Path(win)
+		for _, pos := range []int{len(wpath) / 2, len(wpath) * 3 / 4, len(wpath) - 1} {
+			if pos < 2 || pos >= len(wpath) {
+				continue
+			}
+			hold := wpath[pos]
+			var o []int
+			for i := 1; i < len(tree.Spec.Blocks); i++ {
+				if i != hold {
+					o = append(o, i)
+				}
+			}
+			o = append(o, 0, hold)
+			chunks[workers] = append(chunks[workers], o)
+		}
+		c.Count("orphan_drain_schedules", int64(len(chunks[workers])))
+		results := make([][]orderRes, workers+1)
 		var concOrders atomic.Int64
-		lib.Parallel(workers, workers, func(w int) {
+		lib.Parallel(workers+1, workers, func(w int) {
 			if len(chunks[w]) == 0 {
 				return
 			}
 			q := ordersReq{Tree: &tree, Ref: &ref, Orders: chunks[w], Winner: win, Precond: precond, SeqStep: focus == "C26", WithDB: focus == "C25", Mix: w%2 == 1}
-			if w%4 >= 2 {
+			if w == workers {
+				q.Tail, q.Mix = 2, false
+			} else if w%4 >= 2 {
 				// concurrent delivery stratum: the same order dealt to 2 or 3 goroutines delivering at once
 				q.Conc = w%4
 				concOrders.Add(int64(len(chunks[w])))
@@ -325,6 +360,7 @@ func Engine(c *lib.Ctx, focus string, nTreesSmall, nTreesBig, budgetSmall, budge
 				c.Count("orphans_observed", int64(r.Orphans))
 				c.Count("reorg_block_removals", int64(r.Reorgs))
 				c.Count("seq_observations", int64(r.SeqObs))
+				c.Count("deliveries_held_before_orphan_pool", int64(r.Held))
 				c.Seen("final_tips", r.Tip)
 				for cls, k := range r.NonDeciding {
 					c.Count("nondeciding_db_diff["+cls+"]", int64(k))
